@@ -85,6 +85,7 @@ def _live(repo_path: str) -> dict:
     got = os.path.realpath(os.path.dirname(os.path.dirname(bitstring.__file__)))
     if got != os.path.realpath(repo_path):
         raise RuntimeError("bitstring imported from %s, expected %s" % (got, repo_path))
+    consts = dict(_cache_size_constants(repo_path))
     sizes = []
     for name, modname, path in CACHES:
         try:
@@ -93,8 +94,10 @@ def _live(repo_path: str) -> dict:
             if ms is None:
                 ms = 1 << 30                    # unbounded
             sizes.append((name, int(ms)))
-        except Exception:                       # no longer an lru_cache: not listed (the model then refuses S ops on it)
-            pass
+        except Exception:
+            # no longer an lru_cache under this name (refactored): fall back to the module's CACHE_SIZE constant.
+            # The capacity only matters to the model while a setter leaves stale entries behind.
+            sizes.append((name, int(consts.get(modname.split(".")[-1], 256))))
     o = bitstring.options
     saved = (o.lsb0, o.bytealigned, o.mxfp_overflow)
 
@@ -126,10 +129,29 @@ def _obs(bitstring, s):
         return "err"
 
 
+def discover_caches():
+    """Every object with a cache_clear() reachable from the package's modules and classes (so that an added, moved
+    or renamed cache is found too)."""
+    found, seen = [], set()
+    for mname, mod in list(sys.modules.items()):
+        if not (mname == "bitstring" or mname.startswith("bitstring.")) or mod is None:
+            continue
+        for an, av in list(vars(mod).items()):
+            cands = [av]
+            if isinstance(av, type) and getattr(av, "__module__", "").startswith("bitstring"):
+                for bn, bv in list(vars(av).items()):
+                    cands.append(bv)
+            for c in cands:
+                c = getattr(c, "__func__", c)
+                if callable(getattr(c, "cache_clear", None)) and id(c) not in seen:
+                    seen.add(id(c)); found.append(c)
+    return found
+
+
 def _clear_all(bitstring):
-    for name, modname, path in CACHES:
+    for c in discover_caches():
         try:
-            _resolve(modname, path).cache_clear()
+            c.cache_clear()
         except Exception:
             pass
 
